@@ -3,7 +3,7 @@ relative events of spec/Session1.tla against the live object (mirror of Resolve)
 them, and records [ev, pre, out, post] steps for spec/SessionEval.tla."""
 import sys
 
-from .net import (Endpoint, FIXMessage, FMsg, FTag, PeerCodec, VLoop, abs_frames, install_clock,
+from .net import (Livelock, watchdog, Endpoint, FIXMessage, FMsg, FTag, PeerCodec, VLoop, abs_frames, install_clock,
                   RecConn, Journaler)
 
 SESSION_CFG = ("CONSTANTS\n KF_BackwardReset = TRUE\n KF_StoredInLag = %s\n KF_WriteBeforeJournal = %s\n")
@@ -54,7 +54,7 @@ def build_msg(m):
     if m["pay"]:
         for tok in m["pay"].split("|"):
             k, v = tok.split("=", 1)
-            msg[k] = v
+            msg[k] = "\ud800" if v == "BADENC" else v
     if m["seq"]:
         msg[FTag.MsgSeqNum] = m["seq"]
     if m["pd"]:
@@ -157,9 +157,10 @@ def run_trace(spec):
     s = Session(declined=spec.get("declined", ()), hb=spec.get("hb", 30), nin=spec.get("nin", 1), nout=spec.get("nout", 1))
     err = None
     try:
-        for rev in spec["revs"]:
-            s.apply(rev)
-    except Exception as ex:  # a harness-level failure (e.g. livelock) is reported, not hidden
+        with watchdog(spec.get("watchdog", 30)):
+            for rev in spec["revs"]:
+                s.apply(rev)
+    except (Exception, Livelock) as ex:  # a harness-level failure (e.g. livelock) is reported, not hidden
         err = "%s: %s" % (type(ex).__name__, ex)
     finally:
         s.close()
